@@ -185,9 +185,17 @@ def judge_net(case, ctx, prefix):
     ctx.count('pairs_net')
     ctx.sample({'kind': 'net', 'original': d1, 'transformed': d2})
     outs = []
+    from CircuitCalculator.Network.NodalAnalysis.bias_point_analysis import NodalAnalysisBiasPointSolution
+    from .. import mappers
+    numbered = len(ids) % 3 == 0          # every third pair: the transformed network is solved with a caller's node / source numbering on top
+    if numbered:
+        ctx.count('pairs_net_with_custom_numbering')
     for d in (d1, d2):
         net = call(netdesc.to_lib, d)
-        sol = call(nodal_analysis_bias_point_solver, net) if not raised(net) else net
+        if numbered and d is d2 and not raised(net):
+            sol = call(NodalAnalysisBiasPointSolution, net, **mappers.custom_numbering(len(ids) * 17 + len(nodes)))
+        else:
+            sol = call(nodal_analysis_bias_point_solver, net) if not raised(net) else net
         o = collect(sol, netdesc.nodes(d), [b['id'] for b in d['branches']]) if not raised(sol) else sol
         if raised(o):
             ctx.violation(f'{prefix}/net/raised/{o.key}/{"transformed" if d is d2 else "original"}', o.text, {'transform': T})
